@@ -75,6 +75,12 @@ def St.upd (s : St) (i : Nat) (f : Cell → Cell) : Except Err St :=
   | .error e => .error e
   | .ok c => .ok { s with heap := s.heap.set i (f c) }
 
+/-- `if (q != NULL) q->field = …`. -/
+def St.updOpt (s : St) (o : Option Nat) (f : Cell → Cell) : Except Err St :=
+  match o with
+  | some i => s.upd i f
+  | none => .ok s
+
 /-- `wbxml_tree_node_create(type)` + payload: a fresh cell with all four links NULL. -/
 def St.alloc (s : St) (p : Pay) : Nat × St :=
   (s.heap.length, { s with heap := s.heap ++ [{ pay := p }] })
@@ -163,17 +169,16 @@ def extractNodeG (fixed : Bool) (s : St) (node : Nat) : Except Err St := do
   let s ← (match nc.parent with
     | some p => do
       let pc ← s.deref p
-      let s ← (if pc.first = some node then s.upd p (fun c => { c with first := nc.next }) else pure s)
+      -- if (node->parent->children == node) node->parent->children = node->next;
+      let s ← s.updOpt (if pc.first = some node then some p else none) (fun c => { c with first := nc.next })
       s.upd node (fun c => { c with parent := none })
     | none =>
       if fixed && s.root != some node then pure s
       else pure { s with root := nc.next })
-  let s ← (match nc.next with
-    | some n => s.upd n (fun c => { c with prev := nc.prev })
-    | none => pure s)
-  let s ← (match nc.prev with
-    | some q => s.upd q (fun c => { c with next := nc.next })
-    | none => pure s)
+  -- if (node->next != NULL) node->next->prev = node->prev;
+  let s ← s.updOpt nc.next (fun c => { c with prev := nc.prev })
+  -- if (node->prev != NULL) node->prev->next = node->next;
+  let s ← s.updOpt nc.prev (fun c => { c with next := nc.next })
   s.upd node (fun c => { c with next := none, prev := none })
 
 /-- Which of the two behaviours the pinned working tree has (see DESIGN_NOTES/C18.md). -/
